@@ -215,3 +215,21 @@ CHECKS["C09"] = {
         {"name": "asm-trace", "cmd": ["python3", "{verif}/tools/asmtrace.py"]},
     ],
 }
+
+C17F = SM4P + ["sm4/C17_pub_test.go"]
+CHECKS["C17"] = {
+    "level": "model_checking",
+    "assumptions": ["interleavings inside one assembly call are not explored: an assembly call is atomic for the scheduler and its effect on shared memory is captured by the write-footprint monitor, which is exact for code without synchronisation inside the call",
+                    "reads of statically frozen package-level variables get no scheduling point (they commute with everything); a frozen variable that changes anyway is reported",
+                    "sequential consistency: weak-memory reorderings are not modelled", "preemption bound 2 (quick) / 3 (thorough), 2-3 threads, 1-2 operations each"],
+    "prepare": {"sched": [["bash", "{verif}/tools/prep_sched.sh", "{repo}"]],
+                "schedarm": [["python3", "{verif}/tools/prep_armglue.py", "{repo}"], ["bash", "{verif}/tools/prep_sched.sh", "{repo}"]]},
+    "parts": [
+        {"name": "sched-sm4", "variant": "sched", "pkg": "sm4", "run": "TestVX_C17_SM4", "public_files": C17F, "shards": 6, "env": {"VX_PART": "sched-sm4"}},
+        {"name": "sched-sm4-armglue", "variant": "schedarm", "pkg": "sm4", "run": "TestVX_C17_SM4", "public_files": C17F, "shards": 6, "env": {"VX_PART": "sched-sm4-armglue"}},
+        {"name": "sched-sm2", "variant": "sched", "pkg": "sm2", "run": "TestVX_C17_SM2", "public_files": SM2P + ["sm2/C17_pub_test.go"], "shards": 2},
+        {"name": "race-sm4", "variant": "sched", "race": True, "pkg": "sm4", "run": "TestVX_C17_SM4_Race", "public_files": C17F, "gomaxprocs": 16},
+        {"name": "race-sm2", "variant": "sched", "race": True, "pkg": "sm2", "run": "TestVX_C17_SM2_Race", "public_files": SM2P + ["sm2/C17_pub_test.go"], "gomaxprocs": 16},
+    ],
+    "deadline": {"quick": 300, "thorough": 3000},
+}
